@@ -345,6 +345,8 @@ def run(chk: Check) -> None:
                             if cfg.path_avoiding(r, nn, nonempty - {b}) is not None and \
                                     not any(cfg.dominates(b2, nn) and b2 in cfg.reachable(r) for b2 in nonempty):
                                 ok = False
+            if not ok and isinstance(n, ast.Expr):
+                ok = _pop_under_loop_invariant(g, n, lst)
             chk.ob("R15.3", "%s:%s" % (g.qualname, "".join(ch for ch in unparse(n) if ch.isalnum() or ch in "*,=_.")[:40]),
                    ok, g.loc(n),
                    "%s destructures/pops '%s' without a dominating non-empty test: an implicit "
@@ -376,6 +378,7 @@ def run(chk: Check) -> None:
                         for b in cfgx.g.successors(tn):
                             nonempty.add(b)
                 guarded = bool(nonempty) and cfgx.path_avoiding(cfgx.entry, nn, nonempty) is None
+                guarded = guarded or _appended_by_left_loop(g, n, lst)
                 n_d += 1
                 chk.ob("R15.3", "%s:%s" % (g.qualname, "".join(ch for ch in unparse(n) if ch.isalnum() or ch in "_[]-")),
                        guarded or not first, g.loc(n),
@@ -387,6 +390,89 @@ def run(chk: Check) -> None:
     _remainder(chk, f, inner)
     from .purity import codec_state
     codec_state(chk, "R15.5")
+
+
+def _is_empty_test(t: ast.AST, lst: str) -> bool:
+    """``len(lst) == 0`` / ``not lst``"""
+    if isinstance(t, ast.UnaryOp) and isinstance(t.op, ast.Not) and attr_path(t.operand) == (lst,):
+        return True
+    return isinstance(t, ast.Compare) and len(t.ops) == 1 and isinstance(t.ops[0], ast.Eq) and \
+        isinstance(t.left, ast.Call) and attr_path(t.left.func) == ("len",) and t.left.args and \
+        attr_path(t.left.args[0]) == (lst,) and isinstance(t.comparators[0], ast.Constant) and t.comparators[0].value == 0
+
+
+def _enclosing_loop(n: ast.AST, fn: ast.AST) -> Optional[ast.For]:
+    cur = getattr(n, "_parent", None)
+    while cur is not None and cur is not fn:
+        if isinstance(cur, (ast.For, ast.While)):
+            return cur if isinstance(cur, ast.For) else None
+        cur = getattr(cur, "_parent", None)
+    return None
+
+
+def _pop_under_loop_invariant(g, n: ast.Expr, lst: str) -> bool:
+    """``lst.pop()`` once per iteration of a loop that starts with ``lst`` non-empty (a non-empty
+    list display bound right before it, nothing else binds it) and ends every iteration with
+    ``if <lst is empty>: break``: the list is non-empty at the start of every iteration"""
+    loop = _enclosing_loop(n, g.node)
+    if loop is None or not loop.body:
+        return False
+    last = loop.body[-1]
+    if not (isinstance(last, ast.If) and not last.orelse and _is_empty_test(last.test, lst)
+            and len(last.body) == 1 and isinstance(last.body[0], ast.Break)):
+        return False
+    if any(isinstance(x, ast.Continue) for x in ast.walk(loop)):
+        return False
+    pops = [x for x in ast.walk(loop) if isinstance(x, ast.Call) and isinstance(x.func, ast.Attribute)
+            and x.func.attr in ("pop", "clear", "remove") and attr_path(x.func.value) == (lst,)]
+    if len(pops) != 1 or any(isinstance(x, (ast.For, ast.While)) for b in loop.body for x in ast.walk(b)):
+        return False
+    binds = [x for x in walk_no_nested(g.node) if isinstance(x, ast.Assign) and any(attr_path(t) == (lst,) for t in x.targets)]
+    if len(binds) != 1 or not (isinstance(binds[0].value, ast.List) and binds[0].value.elts):
+        return False
+    # bound before the loop, in the same block
+    par = getattr(loop, "_parent", None)
+    for fld in ("body", "orelse", "finalbody"):
+        blk = getattr(par, fld, None)
+        if isinstance(blk, list) and loop in blk and binds[0] in blk and blk.index(binds[0]) < blk.index(loop):
+            between = blk[blk.index(binds[0]) + 1:blk.index(loop)]
+            return not any(isinstance(x, ast.Name) and x.id == lst for b in between for x in ast.walk(b))
+    return False
+
+
+def _appended_by_left_loop(g, n: ast.Subscript, lst: str) -> bool:
+    """``lst[-1]`` after ``for ...: ...; lst.append(x); ...; break`` / ``else: <raise>``: the loop was
+    left by ``break``, so its body ran and appended"""
+    st: Optional[ast.AST] = n
+    while st is not None and not isinstance(st, ast.stmt):
+        st = getattr(st, "_parent", None)
+    if st is None:
+        return False
+    par = getattr(st, "_parent", None)
+    for fld in ("body", "orelse", "finalbody"):
+        blk = getattr(par, fld, None)
+        if not (isinstance(blk, list) and st in blk):
+            continue
+        prev = blk[:blk.index(st)]
+        loops = [x for x in prev if isinstance(x, ast.For)]
+        if not loops:
+            return False
+        loop = loops[-1]
+        after = prev[prev.index(loop) + 1:]
+        if any(isinstance(x, ast.Name) and x.id == lst and not isinstance(x.ctx, ast.Load) for b in after for x in ast.walk(b)):
+            return False
+        if not loop.orelse or not isinstance(loop.orelse[-1], (ast.Raise, ast.Return)):
+            return False
+        # an unconditional top-level append in the body, before every break
+        for i, b in enumerate(loop.body):
+            if isinstance(b, ast.Expr) and isinstance(b.value, ast.Call) and isinstance(b.value.func, ast.Attribute) \
+                    and b.value.func.attr == "append" and attr_path(b.value.func.value) == (lst,):
+                if not any(isinstance(x, ast.Break) for b2 in loop.body[:i] for x in ast.walk(b2)):
+                    return not any(isinstance(x, ast.Call) and isinstance(x.func, ast.Attribute)
+                                   and x.func.attr in ("pop", "clear", "remove") and attr_path(x.func.value) == (lst,)
+                                   for x in ast.walk(loop))
+        return False
+    return False
 
 
 def bracket_matching(chk: Check, rule: str) -> None:
